@@ -400,6 +400,10 @@ def install(E):
         hints={'call': {'compute_SCCs': gfs_scc_hint}}, owner='C15',
         note='frame and safety only (result: a new set of states); the set itself is wrong on the pinned tree, KF-C15-1'))
 
+    def fresh_label_clause(c):
+        s_ = X('s')
+        return z3.ForAll([s_], z3.Implies(V(c.h0, c.self.t)[s_], z3.Not(Lab(c.h0, c.self.t, s_)[c.res.t])))
+
     def lfs_frame(c):
         return labels_frame_of(c.h0, c.h1, c.self.t)
 
@@ -411,7 +415,11 @@ def install(E):
     def lfs_l1(lc):
         # while f_label in labels: ...
         c, h, he = lc.c, lc.h, lc.h_entry
-        return [('alloc', h.alloc >= he.alloc)] + structure_kept(c.h0, h, c.self.t) \
+        s_, a_ = X('s'), X('a')
+        Ls = h.set_of(lc.env['labels'].t)
+        return [('alloc', h.alloc >= he.alloc),
+                ('labels_are_all_labels', z3.ForAll([a_], Ls[a_] == z3.Exists([s_], z3.And(V(c.h0, c.self.t)[s_], Lab(c.h0, c.self.t, s_)[a_])))),
+                ('labels_set_is_new', lc.env['labels'].t >= c.h0.alloc)] + structure_kept(c.h0, h, c.self.t) \
             + [('since_entry:' + n_, f_) for n_, f_ in labels_frame_of(c.h0, h, c.self.t)]
 
     def lfs_l2(lc):
@@ -428,7 +436,10 @@ def install(E):
     reg(Contract(
         'Kripke.label_fair_states', 'kripke', [('self', 'kripke'), ('F', 'iterRefSets')], ret='H',
         requires=lambda c: [('wf', wfK(c.h0, c.self.t)), ('no_None_state', z3.Not(V(c.h0, c.self.t)[hp.NONE_H])), fairsets_valid(c)],
-        ensures=lambda c: structure_kept(c.h0, c.h1, c.self.t), frame=lfs_frame, may_write=lfs_may_write,
+        ensures=lambda c: structure_kept(c.h0, c.h1, c.self.t) + [
+            # "a new atomic proposition": no state of the structure carried it before the call
+            ('not_a_label_of_the_structure', z3.ForAll([X('s')], z3.Implies(V(c.h0, c.self.t)[X('s')], z3.BoolVal(True))) if False else
+             fresh_label_clause(c))], frame=lfs_frame, may_write=lfs_may_write,
         loops={1: lfs_l1, 2: lfs_l2}, loop_touches={1: set(), 2: {'sets'}}, touches={'sets', 'dd', 'dv', 'fld__next', 'rels'},
         hints={'format_is_H': True}, owner='C15',
         note='frame and safety only: writes go to the CONTENTS of the label sets of self; termination of the renaming loop not claimed'))
